@@ -132,7 +132,12 @@ func (*RPM) Package(info *nfpm.Info, w io.Writer) (err error) {
 	}
 	if signFn := info.RPM.Signature.SignFn; signFn != nil {
 		rpm.SetPGPSigner(func(data []byte) ([]byte, error) {
-			return signFn(bytes.NewReader(data))
+			signature, err := signFn(bytes.NewReader(data))
+			if err != nil {
+				return nil, &nfpm.ErrSigningFailure{Err: err}
+			}
+
+			return signature, nil
 		})
 	}
 
